@@ -41,10 +41,13 @@ class Harness:
         # standing shadow for every harness: expressions.np answers isinf/isnan elementwise on object arrays (numpy's C loops
         # refuse dtype=object); for ordinary float arrays it is numpy itself.
         import mitxgraders.helpers.calc.expressions as X
-        from .stubs import shadow, NpObjProxy
+        import voluptuous.schema_builder as VS
+        import voluptuous.validators as VV
+        from .stubs import shadow, NpObjProxy, sym_isinstance
         set_engine(E)
         try:
-            with shadow(X, np=NpObjProxy()):
+            # second standing shadow: the vendored voluptuous sees symbolic numbers / strings as float / int / str
+            with shadow(X, np=NpObjProxy()), shadow(VS, isinstance=sym_isinstance), shadow(VV, isinstance=sym_isinstance):
                 return self.fn(E, *self.params)
         finally:
             set_engine(None)
